@@ -202,6 +202,36 @@ def op_self_alias(cfg, path, rnd):
     parent[path[-1]] = 'cyc-a'
 
 
+def op_alias_cycle_shape(shape):
+    """an alias which names itself through a structure member, an array element, an inheritance chain or a
+    chain of plain aliases; the slot at `path` uses it"""
+    def f(cfg, path, rnd):
+        tt = cfg['trace']['type']
+        al = tt.get('$field-type-aliases')
+        if not isinstance(al, dict):
+            al = {}
+            tt['$field-type-aliases'] = al
+        if shape == 'member':
+            m = {'next': 'cyc_m'} if rnd.random() < 0.5 else {'next': {'field-type': 'cyc_m'}}
+            al['cyc_m'] = {'class': 'struct', 'members': [{'v': {'field-type': {'class': 'uint', 'size': 8}}}, m]}
+            name = 'cyc_m'
+        elif shape == 'element':
+            al['cyc_e'] = {'class': 'static-array', 'length': 2, 'element-field-type': 'cyc_e'}
+            name = 'cyc_e'
+        elif shape == 'inherit':
+            al['cyc_i'] = {'$inherit': 'cyc_j', 'size': 8}
+            al['cyc_j'] = {'$inherit': 'cyc_i', 'alignment': 8}
+            name = 'cyc_i'
+        else:
+            n = rnd.randint(3, 6)
+            for i in range(n):
+                al[f'cyc_c{i}'] = f'cyc_c{(i + 1) % n}'
+            name = 'cyc_c0'
+        parent = get(cfg, path[:-1])
+        parent[path[-1]] = name
+    return f
+
+
 def op_self_inherit(cfg, path, rnd):
     tt = cfg['trace']['type']
     al = tt.setdefault('$field-type-aliases', {}) or {}
@@ -343,6 +373,10 @@ OPS = [
     ('unknown-alias', ANY_FT, None, op_unknown_alias),
     ('alias-cycle', ANY_FT, None, op_self_alias),
     ('self-inheritance', ANY_FT, None, op_self_inherit),
+    ('alias-cycle-through-member', ANY_FT, None, op_alias_cycle_shape('member')),
+    ('alias-cycle-through-element', ANY_FT, None, op_alias_cycle_shape('element')),
+    ('alias-cycle-through-inheritance', ANY_FT, None, op_alias_cycle_shape('inherit')),
+    ('alias-cycle-long-chain', ANY_FT, None, op_alias_cycle_shape('chain')),
     ('unknown-clock-type', ['dst'], None, _set('$default-clock-type-name', 'no_such_clock')),
     ('unknown-log-level-alias', ['ert'], None, _set('log-level', 'no-such-level')),
     ('log-level-negative', ['ert'], None, _set('log-level', -1)),
